@@ -7,7 +7,12 @@ PROPS["C05"] = {
                   "stored messages after the presented ID (C05_resume_after); and for EVERY sequence of connections with any registration "
                   "and end times and any cut offsets / errors / handler ends, a client that holds one event receives in total a prefix of "
                   "what was published after it, each event once, in order, with the published ID/type/data, and ALL of it when the last "
-                  "connection ends with the handler (C05_end_to_end). The parts the composition rests on are the other properties' models "
+                  "connection ends with the handler (C05_end_to_end). The proviso is a theorem too (EndToEndBounded.v): with a replayer "
+                  "that is Fifo.lastn N of the accepted puts - what C08 proves a FiniteReplayer of capacity N to be - and fewer than N "
+                  "messages published during each absence, the bounded system equals the unbounded one connection by connection, so the "
+                  "same conclusion holds for every N (C05_bounded_replayer_is_unbounded, C05_end_to_end_bounded, C05_resume_from_last_N; "
+                  "the unbounded statement is the instance N >= history, C05_unbounded_is_instance); without the proviso events are lost "
+                  "(C05_too_small_replayer_loses_events, computed witness). The parts the composition rests on are the other properties' models "
                   "(wire: C02/C15; interpreter = parser: C01; Last-Event-ID rule: C10; resume: C08/C09; replay+register atomic: C04). "
                   "Tie: the library's Client runs against the library's Server+Joe+replayer over in-memory connections cut at scripted raw "
                   "and body offsets or ended by the handler; every attempt's header, the bytes actually read and the dispatched events "
